@@ -36,4 +36,32 @@ CHECKS = {
         stages=[rnd("ops", "c20", 1500000, 30000000, essential=["slot_reused", "stale_after_reuse", "destroy_with_refs", "bogus_handle", "iterate", "over_put_free", "second_destroy"])],
         assumptions=["single-threaded use", "no-check handles (qb_hdb_nocheck_convert) are not generated: the statement does not cover them"],
     ),
+    "C17": dict(
+        title="maps behave like dictionaries; notifiers fire once",
+        level="exploration",
+        design_ref="DESIGN.md section 4, C17",
+        technique="model-based property testing: generated map op lists vs. std::map + a model of the registered notifiers",
+        level_text="seeded random op lists on each of the three implementations compared after every op with a std::map dictionary and a notifier model "
+                   "(multiset of callbacks with event, key, old and new value, user data; FREE exactly once per value that leaves, FREE last)",
+        level_note="trusted: the dictionary/notifier model (attachment rules read from the three *_notify_add functions and qbmap.h); keys handed to the map are heap copies "
+                   "freed in the FREE notifier, so ASan sees any later use by the library",
+        stages=[rnd("ops", "c17", 600000, 12000000, essential=["hashtable", "skiplist", "trie", "rm_absent_prefix_related", "abandoned_traversal", "prefix_iteration", "notifier_registered", "map_emptied"])],
+        assumptions=["single-threaded use", "the empty string is never used as a key (not documented as valid)", "values are non-NULL (NULL means absent in this API)",
+                     "trie order is checked as ascending in signed-char order, skiplist in strcmp order",
+                     "hashtable notifiers subscribe only to DELETED/REPLACED/FREE (qbmap.h: hashtable does not support insert notifications)",
+                     "notify_del is only called for registrations that exist (exact key) or near misses on user data"],
+    ),
+    "C18": dict(
+        title="map iterators stay valid under mutation",
+        level="exploration",
+        design_ref="DESIGN.md section 4, C18",
+        technique="model-based property testing with ASan: generated interleavings of iterator and mutation ops vs. per-iterator obligations + dictionary model",
+        level_text="seeded random interleavings of up to 4 open iterators with put/rm/get, removals aimed at the iterators' positions and neighbours; ASan for freed-memory access, "
+                   "per-iterator obligations (every key present throughout is returned, exactly once without insertions; nothing never-present), dictionary agreement while iterators are open, "
+                   "full C17 comparison once they are gone",
+        level_note="trusted: the model; notifications about values whose deletion may be deferred are left out of the accounting if the notifier set changes meanwhile (the statement does not fix which set applies)",
+        stages=[rnd("iters", "c18", 600000, 12000000, essential=["hashtable", "skiplist", "trie", "abandoned_iterator", "iters_freed_compare", "parked_removed", "aimed_rm", "map_emptied"])],
+        assumptions=["single-threaded use", "a map is never destroyed while iterators are open on it",
+                     "a trie prefix iterator is held to its prefix only while nothing was inserted during the iteration"],
+    ),
 }
